@@ -25,6 +25,9 @@ Inductive sres := SReply (b : list N) | SFail (t : list N).
 
 Inductive event :=
 | EvWrite (off n al bs : N)      (* Receive wrote [off, off+n) of the buffer; al = heap block size, bs = m_buffer_size *)
+| EvHdrWrite (off n : N)         (* Receive wrote [off, off+n) of the 4-byte header array m_header *)
+| EvParse (n al : N)             (* HandleNewMsg parsed (read) [0, n) of the buffer; al = heap block size *)
+| EvFreeReq (q : N)              (* the OutstandingRequest of request q was deleted *)
 | EvDispatch (m : msg)           (* HandleNewMsg parsed m and dispatched on its type *)
 | EvClose                        (* m_descriptor->Close() *)
 | EvSend (m : msg)               (* SendMsg wrote m to the peer *)
@@ -109,7 +112,8 @@ Definition hdr_size (w : N) : N := N.land w SIZE_MASK.
 
 Section Model.
 Variable decode : list N -> option msg.        (* RpcMessage::ParseFromArray *)
-Variable method_kind : list N -> N.            (* FindMethodByName: 0 none, 1 method, 2 streaming method *)
+Variable method_kind : list N -> N.            (* FindMethodByName: 0 none, 1 method, 2 streaming method;
+                                                  3 = no service registered / no service descriptor *)
 Variable req_ok : list N -> bool.              (* request prototype ParseFromString *)
 Variable service : list N -> list N -> option sres.
   (* what the service does with (method, request): Some = completes inside CallMethod,
@@ -156,7 +160,7 @@ Definition handle_response (r : rpc) (m : msg) (o : outcome) : rpc * list event 
    A superseded (cancelled) request is only freed; a request that is not outstanding is the service
    running a single-use callback twice, which cannot happen (modelled as no effect). *)
 Definition request_complete (cl sendok : bool) (r : rpc) (q : N) (res : sres) : rpc * list event :=
-  if memN q (cancelled r) then (set_server r (nreq r) (requests r) (delN q (cancelled r)), [])
+  if memN q (cancelled r) then (set_server r (nreq r) (requests r) (delN q (cancelled r)), [EvFreeReq q])
   else match key_of q (requests r) with
        | None => (r, [])
        | Some id =>
@@ -165,7 +169,7 @@ Definition request_complete (cl sendok : bool) (r : rpc) (q : N) (res : sres) : 
                       | SFail t => mkMsg RESPONSE_FAILED id [] t
                       end in
          let '(r', evs, _) := send_msg cl sendok r reply in
-         (set_server r' (nreq r') (remove id (requests r')) (cancelled r'), evs)
+         (set_server r' (nreq r') (remove id (requests r')) (cancelled r'), evs ++ [EvFreeReq q])
        end.
 
 (* the duplicate-id branch of HandleRequest: the outstanding request with this id is failed towards
@@ -181,7 +185,8 @@ Definition supersede (cl sendok : bool) (r : rpc) (id : N) : rpc * list event :=
 (* HandleRequest.  A request whose id is already outstanding fails the old one towards the client
    and leaves it to be freed when the service completes it. *)
 Definition handle_request (cl sendok : bool) (r : rpc) (m : msg) : rpc * list event :=
-  if method_kind (m_name m) =? 0 then
+  if method_kind (m_name m) =? 3 then (r, [])
+  else if method_kind (m_name m) =? 0 then
     let '(r', evs, _) := send_msg cl sendok r (mkMsg RESPONSE_NOT_IMPLEMENTED (m_id m) [] []) in (r', evs)
   else if negb (req_ok (m_buf m)) then (r, [])
   else
@@ -196,7 +201,8 @@ Definition handle_request (cl sendok : bool) (r : rpc) (m : msg) : rpc * list ev
     end.
 
 Definition handle_stream_request (cl sendok : bool) (r : rpc) (m : msg) : rpc * list event :=
-  if method_kind (m_name m) =? 0 then
+  if method_kind (m_name m) =? 3 then (r, [])
+  else if method_kind (m_name m) =? 0 then
     let '(r', evs, _) := send_msg cl sendok r (mkMsg RESPONSE_NOT_IMPLEMENTED (m_id m) [] []) in (r', evs)
   else if negb (method_kind (m_name m) =? 2) then (r, [])
   else if negb (req_ok (m_buf m)) then (r, [])
@@ -246,12 +252,13 @@ Definition body_phase (sendok : bool) (f : frame) (r : rpc) (avail : list N)
   let cur := current f + len got in
   let b := body f ++ got in
   if cur =? expected f then
+    let p := EvParse (expected f) (alloc f) in
     match decode b with
     | None =>
-      (mkFrame (alloc f) (bufsz f) 0 cur (hdr f) b true, r, rest, [w; EvClose])
+      (mkFrame (alloc f) (bufsz f) 0 cur (hdr f) b true, r, rest, [w; p; EvClose])
     | Some m =>
       let '(r', evs) := dispatch (closed f) sendok r m in
-      (mkFrame (alloc f) (bufsz f) 0 cur (hdr f) b (closed f), r', rest, w :: EvDispatch m :: evs)
+      (mkFrame (alloc f) (bufsz f) 0 cur (hdr f) b (closed f), r', rest, w :: p :: EvDispatch m :: evs)
     end
   else
     (mkFrame (alloc f) (bufsz f) (expected f) cur (hdr f) b (closed f), r, rest, [w]).
@@ -261,17 +268,20 @@ Definition descriptor_ready (sendok : bool) (f : frame) (r : rpc) (avail : list 
   : frame * rpc * list N * list event :=
   if dead r then (f, r, avail, [])
   else if expected f =? 0 then
+    let hw := EvHdrWrite (len (hdr f)) (N.min (4 - len (hdr f)) (len avail)) in
     let '(f1, rest, version, size) := read_header f avail in
     let f2 := set_exp f1 size in
-    if size =? 0 then (f2, r, rest, [])
-    else if negb (version =? PROTOCOL_VERSION) then (close_reset f2, r, rest, [EvClose])
-    else if MAX_BUFFER_SIZE <? size then (close_reset f2, r, rest, [EvClose])
+    if size =? 0 then (f2, r, rest, [hw])
+    else if negb (version =? PROTOCOL_VERSION) then (close_reset f2, r, rest, [hw; EvClose])
+    else if MAX_BUFFER_SIZE <? size then (close_reset f2, r, rest, [hw; EvClose])
     else
       let f3 := mkFrame (alloc f2) (bufsz f2) (expected f2) 0 (hdr f2) [] (closed f2) in
       let '(f4, ret) := allocate_msg_buffer f3 size in
       let f5 := mkFrame (alloc f4) ret (expected f4) (current f4) (hdr f4) (body f4) (closed f4) in
-      if ret <? size then (close_reset f5, r, rest, [EvClose])
-      else body_phase sendok f5 r rest
+      if ret <? size then (close_reset f5, r, rest, [hw; EvClose])
+      else
+        let '(f6, r6, rest6, evs6) := body_phase sendok f5 r rest in
+        (f6, r6, rest6, hw :: evs6)
   else body_phase sendok f r avail.
 
 (* the poller: while the descriptor is open and readable, call DescriptorReady *)
@@ -346,11 +356,18 @@ Definition dones (evs : list event) : list (N * outcome) :=
 Definition write_ok (e : event) : bool :=
   match e with
   | EvWrite off n al bs => (off + n <=? bs) && (bs <=? al) && (bs <=? 1048576)
+  | EvHdrWrite off n => off + n <=? 4
+  | EvParse n al => (n <=? al) && (n <=? 1048576)
   | EvOutOfFuel => false
   | _ => true
   end.
 Definition oob (e : event) : bool :=
-  match e with EvWrite off n al _ => al <? off + n | _ => false end.
+  match e with
+  | EvWrite off n al _ => al <? off + n
+  | EvHdrWrite off n => 4 <? off + n
+  | EvParse n al => al <? n
+  | _ => false
+  end.
 
 (* vocabulary of the property statements *)
 (* healthy: every write to the peer succeeds (no jammed or failed send) *)
@@ -372,3 +389,7 @@ Definition sends (evs : list event) : list msg :=
 Definition is_reply (m : msg) : bool :=
   (m_type m =? RESPONSE) || (m_type m =? RESPONSE_FAILED) || (m_type m =? RESPONSE_NOT_IMPLEMENTED).
 Definition is_request (m : msg) : bool := (m_type m =? REQUEST) || (m_type m =? STREAM_REQUEST).
+(* the requests whose object was deleted *)
+Definition freed (evs : list event) : list N :=
+  flat_map (fun e => match e with EvFreeReq q => [q] | _ => [] end) evs.
+Definition cntN (x : N) (l : list N) : nat := length (filter (fun y => y =? x) l).
